@@ -13,9 +13,9 @@ REPLAYS = os.path.join(VERIF, "replays")
 
 # property -> units that own obligations for it (DESIGN.md section 5)
 PROPERTY_UNITS = {
-    "C06": ["V1_runtime", "V2_basic"],
-    "C07": ["V1_runtime", "K1_numbers", "V2_basic"],
-    "C08": ["V1_runtime", "R_refuter"],
+    "C06": ["V1_runtime", "V2_basic", "V3_simple"],
+    "C07": ["V1_runtime", "K1_numbers", "V2_basic", "V3_simple"],
+    "C08": ["V1_runtime", "V3_simple", "R_refuter"],
     "C09": ["K1_numbers", "V1_runtime"],
     "C10": ["V1_runtime", "R_refuter"],
     "C11": ["K1_numbers", "V1_runtime", "R_refuter"],
